@@ -7,7 +7,10 @@ package zzverifrt
 import (
 	"encoding/json"
 	"fmt"
+	"io/fs"
 	"os"
+	"path/filepath"
+	"time"
 )
 
 type replayFile struct {
@@ -80,6 +83,34 @@ func Bytes(name string, n int) []byte {
 	}
 	return out
 }
+
+// SetDir declares the content of a directory for code that lists directories
+// through the os package (filepath.Glob): a model under gosym; natively the
+// directory and (empty) files are really created.
+func SetDir(dir string, names []string) {
+	if err := os.MkdirAll(dir, 0700); err != nil {
+		panic(err)
+	}
+	old, _ := os.ReadDir(dir)
+	for _, e := range old {
+		os.Remove(filepath.Join(dir, e.Name()))
+	}
+	for _, n := range names {
+		if err := os.WriteFile(filepath.Join(dir, n), nil, 0600); err != nil {
+			panic(err)
+		}
+	}
+}
+
+// DirInfo is the fs.FileInfo gosym returns from os.Stat for a modelled directory.
+type DirInfo struct{}
+
+func (DirInfo) Name() string       { return "dir" }
+func (DirInfo) Size() int64        { return 0 }
+func (DirInfo) Mode() fs.FileMode  { return fs.ModeDir | 0700 }
+func (DirInfo) ModTime() time.Time { return time.Time{} }
+func (DirInfo) IsDir() bool        { return true }
+func (DirInfo) Sys() interface{}   { return nil }
 
 // ExitCode runs f and returns the status it passes to os.Exit (-1 if it
 // returns).  gosym only: natively os.Exit cannot be intercepted, C20
